@@ -40,6 +40,8 @@ type PackWriter struct {
 	// promisor, when non-nil, writes a .promisor sidecar next to the pack
 	// carrying these contents. A nil value leaves the pack unmarked.
 	promisor *string
+	// saved, when non-nil, runs after the pack has been moved into place.
+	saved func()
 }
 
 func newPackWrite(fs billy.Filesystem, format formatcfg.ObjectFormat, writeRev bool) (*PackWriter, error) {
@@ -134,7 +136,13 @@ func (w *PackWriter) Close() error {
 		return w.clean()
 	}
 
-	return w.save()
+	if err := w.save(); err != nil {
+		return err
+	}
+	if w.saved != nil {
+		w.saved()
+	}
+	return nil
 }
 
 func (w *PackWriter) clean() error {
@@ -375,6 +383,8 @@ type ObjectWriter struct {
 	objfile.Writer
 	fs billy.Filesystem
 	f  billy.File
+	// saved, when non-nil, runs after the object has been moved into place.
+	saved func()
 }
 
 func newObjectWriter(fs billy.Filesystem, objectFormat formatcfg.ObjectFormat) (*ObjectWriter, error) {
@@ -400,7 +410,13 @@ func (w *ObjectWriter) Close() error {
 		return err
 	}
 
-	return w.save()
+	if err := w.save(); err != nil {
+		return err
+	}
+	if w.saved != nil {
+		w.saved()
+	}
+	return nil
 }
 
 func (w *ObjectWriter) save() error {
